@@ -359,14 +359,7 @@ example : timeRule [⟨2, 0x20000001, 1002⟩, ⟨1, 0x20000001, 1001⟩, ⟨0, 
 open Generated.C14 in
 theorem pin_consts :
     vbTopBits = (VB_TOP_BITS : Int) ∧ vbTopMask = (VB_TOP_MASK : Int) ∧ vbNumBits = (VB_NUM_BITS : Int) ∧
-    medianTimeBlocks = (MEDIAN_TIME_SPAN : Int) ∧ vbLegacyBlockVersion = 4 ∧ definedDeployments = 6 := by
-  decide
-
-open Generated.C14 in
-theorem pin_state_codes :
-    [thresholdDefined, thresholdStarted, thresholdLockedIn, thresholdActive, thresholdFailed,
-      numThresholdsStates] =
-    [(St.code .defined : Int), St.code .started, St.code .lockedIn, St.code .active, St.code .failed, 5] := by
+    medianTimeBlocks = (MEDIAN_TIME_SPAN : Int) := by
   decide
 
 open Generated.C14 in
